@@ -33,8 +33,8 @@ ASSUMPTIONS = ["the reference interpreter runs the same repository code: only hi
                "coupling are decided here, absolute correctness of the layout is C11/C12",
                "HCommand binds its palette at construction: a fresh HCommand is built for every help request"]
 TIERS = {
-    "quick": {"shards": 4, "cases": 14, "timeout": 300},
-    "thorough": {"shards": 16, "cases": 150, "timeout": 3000},
+    "quick": {"shards": 4, "cases": 14, "timeout": 300, "params": {"case_timeout": 200}},
+    "thorough": {"shards": 16, "cases": 150, "timeout": 3000, "params": {"case_timeout": 200}},
 }
 FLOORS = {"quick": {"distinct_nontrivial": 20, "requests_compared_with_reference": 1000,
                     "strip_equals_no_color_checks": 400, "dead_palette_addresses_reused": 50,
